@@ -33,8 +33,8 @@ def wcost(z, a, b, idx, pos, w):
     return float((w * ((pos - calc) ** 2).sum(axis=1)).sum())
 
 
-def stmt_failure(idx, pos, w, rng=None):
-    rng = rng or np.random.default_rng(0)
+def stmt_failure(idx, pos, w, seed=0):
+    rng = np.random.default_rng(seed)          # the random affine map and perturbations are a function of the recorded seed (replays reproduce)
     matcher = grm.Matcher()
     try:
         m = core.call_guarded(matcher.affinematch, centers=pos, refineds=pos, peak_values=w, peak_elevations=w, indices=idx)
@@ -87,10 +87,10 @@ def stmt_failure(idx, pos, w, rng=None):
             return ('%s() of a Match whose error / calculated_refineds had been read before: reported error %.6g, calculated positions off by %.3g; '
                     'the returned lattice has error %.6g' % (nm, mo.error, float(np.abs(mo.calculated_refineds - calc).max()), e_want))
     # rescaling the weights
-    k = float(rng.choice([1e-8, 1e-6, 1e-3, 0.5, 7.0, 1e3, 1e6]))
-    m2 = matcher.affinematch(centers=pos, refineds=pos, peak_values=w * k, peak_elevations=w * k, indices=idx)
-    if m2.isnan() or len(m2) != len(pos) or not (np.allclose(m2.zero, m.zero, atol=1e-7 * sc) and np.allclose(m2.a, m.a, atol=1e-7 * sc) and np.allclose(m2.b, m.b, atol=1e-7 * sc)):
-        return 'rescaling all weights by %s changes the fit (selected %d of %d)' % (k, len(m2), len(pos))
+    for k in (1e-30, 1e-14, 1e-11, 1e-8, 1e-6, 1e-3, 0.5, 7.0, 1e3, 1e6, 1e12):
+        m2 = matcher.affinematch(centers=pos, refineds=pos, peak_values=w * k, peak_elevations=w * k, indices=idx)
+        if m2.isnan() or len(m2) != len(pos) or not (np.allclose(m2.zero, m.zero, atol=1e-7 * sc) and np.allclose(m2.a, m.a, atol=1e-7 * sc) and np.allclose(m2.b, m.b, atol=1e-7 * sc)):
+            return 'rescaling all weights by %s changes the fit (selected %d of %d)' % (k, len(m2), len(pos))
     # affine covariance
     while True:
         L = rng.normal(0, 1, size=(2, 2))
@@ -133,8 +133,8 @@ def history_failure(rng, ncalls=4):
     return None, hist
 
 
-def mk_replay(idx, pos, w, fail):
-    return {'kind': 'input', 'call': 'Matcher.affinematch / Match.weighted_optimize', 'args': {'indices': idx.tolist(), 'positions': pos.tolist(), 'weights': w.tolist()}, 'failure': fail}
+def mk_replay(idx, pos, w, fail, seed=0):
+    return {'kind': 'input', 'call': 'Matcher.affinematch / Match.weighted_optimize', 'args': {'indices': idx.tolist(), 'positions': pos.tolist(), 'weights': w.tolist(), 'seed': int(seed)}, 'failure': fail}
 
 
 def replay_history(hist):
@@ -160,7 +160,7 @@ def replay(body):
             print('VIOLATION property=C06 replay=(given)')
             return 1
         return 0
-    fail = stmt_failure(np.array(a['indices']), np.array(a['positions']), np.array(a['weights']))
+    fail = stmt_failure(np.array(a['indices']), np.array(a['positions']), np.array(a['weights']), a.get('seed', 0))
     print(json.dumps({'failure_now': fail}, indent=1))
     if fail:
         print('VIOLATION property=C06 replay=(given)')
@@ -240,10 +240,11 @@ def run(ctx):
             break
     for k in range(nS):
         idx, pos, w = gen(rng)
-        fail = stmt_failure(idx, pos, w, rng)
+        sd = int(rng.integers(0, 2 ** 31))
+        fail = stmt_failure(idx, pos, w, sd)
         ctx.count(1)
         if fail:
-            ctx.violation('input', fail, mk_replay(idx, pos, w, fail))
+            ctx.violation('input', fail, mk_replay(idx, pos, w, fail, sd))
             break
     return ctx.finish(
         LEVEL,
